@@ -28,6 +28,7 @@ spec_def('layer_ok', ['l'],
          'and implies(is_future(l._grad), l._grad.will_be is not None) '
          'and implies(l._grad is not None, len(awaited(l._grad).shape) == 2)')
 spec_def('flayer', ['p', 'm'], 'p._layers[key_at(p._layers, m)][1]')
+spec_def('fname', ['p', 'm'], 'p._layers[key_at(p._layers, m)][0]')
 
 contract(
     f'{P}._compute_grad_scale', props=['C07', 'C11'], result=KReal,
